@@ -827,6 +827,23 @@ impl World {
     pub fn eng_state(&self) -> EngState {
         self.q(&self.engine, &EngineQuery::State {}).unwrap()
     }
+    /// the configuration in force: `cfg` with the updatable ratios read back from the engine and from vAMM `v`
+    /// (explorations may change them mid-history)
+    pub fn live_cfg(&self, v: usize) -> Cfg {
+        let mut c = self.cfg.clone();
+        let e = self.eng_cfg();
+        c.imr = e.initial_margin_ratio.u128();
+        c.mmr = e.maintenance_margin_ratio.u128();
+        c.plr = e.partial_liquidation_ratio.u128();
+        c.liq_fee = e.liquidation_fee.u128();
+        if v < self.vamms.len() {
+            let vc = self.vcfg(v);
+            c.toll = vc.toll_ratio.u128();
+            c.spread = vc.spread_ratio.u128();
+            c.fluct = vc.fluctuation_limit_ratio.u128();
+        }
+        c
+    }
     pub fn eng_cfg(&self) -> EngCfg {
         self.q(&self.engine, &EngineQuery::Config {}).unwrap()
     }
